@@ -9,11 +9,18 @@ class Impl:
     def __init__(self, spec):
         from maltoolbox.model import Model
         self.spec = spec
-        self.lg, self.fac = build_lang(spec)
-        self.m = Model('hist', self.fac)
+        from .common import log_turn, debug_logging
+        self.debug = log_turn()
+        with debug_logging(self.debug):
+            self.lg, self.fac = build_lang(spec)
+            self.m = Model('hist', self.fac)
         self.assets, self.assocs, self.atts = [], [], []
 
     def step(self, op):
+        from .common import debug_logging
+        with debug_logging(self.debug): return self._step(op)
+
+    def _step(self, op):
         from maltoolbox.model import AttackerAttachment
         from maltoolbox.exceptions import DuplicateModelAssociationError, ModelAssociationException
         from python_jsonschema_objects.validators import ValidationError
